@@ -35,12 +35,56 @@ const (
 // counting wrapper around the in-memory curator talker: makes tract-cache hits observable
 type c15curators struct {
 	CuratorTalker
-	n *int64
+	n    *int64
+	mu   sync.Mutex
+	ptrs map[core.TractKey]core.TractPointer // non-nil = RS mode
 }
 
 func (c *c15curators) GetTracts(ctx context.Context, addr string, blob core.BlobID, start, end int, forRead, forWrite bool) ([]core.TractInfo, core.Error) {
 	atomic.AddInt64(c.n, 1)
-	return c.CuratorTalker.GetTracts(ctx, addr, blob, start, end, forRead, forWrite)
+	tracts, err := c.CuratorTalker.GetTracts(ctx, addr, blob, start, end, forRead, forWrite)
+	c.mu.Lock()
+	ptrs := c.ptrs
+	c.mu.Unlock()
+	if err != core.NoError || ptrs == nil {
+		return tracts, err
+	}
+	// the blob's tracts have been moved into an RS chunk: the curator answers with RS pointers and no hosts
+	out := make([]core.TractInfo, len(tracts))
+	for i, ti := range tracts {
+		out[i] = core.TractInfo{Tract: ti.Tract, Version: ti.Version, RS: ptrs[ti.Tract.Index]}
+	}
+	return out, core.NoError
+}
+
+const c15RSHost = "rs-piece-host"
+
+// tractserver talker wrapper: serves one RS piece on c15RSHost the way a tractserver serves any tract
+// (a read crossing the end of the piece returns the bytes with EOF); everything else goes to the in-memory doubles.
+type c15tss struct {
+	TractserverTalker
+	mu    sync.Mutex
+	piece []byte
+}
+
+func (ts *c15tss) ReadInto(ctx context.Context, addr string, id core.TractID, version int, b []byte, off int64) (int, core.Error) {
+	if addr != c15RSHost {
+		return ts.TractserverTalker.ReadInto(ctx, addr, id, version, b, off)
+	}
+	if version != core.RSChunkVersion {
+		return 0, core.ErrVersionMismatch
+	}
+	ts.mu.Lock()
+	piece := ts.piece
+	ts.mu.Unlock()
+	if off > int64(len(piece)) {
+		return 0, core.ErrEOF
+	}
+	n := copy(b, piece[off:])
+	if n < len(b) {
+		return n, core.ErrEOF
+	}
+	return n, core.NoError
 }
 
 type c15line struct{ op, obs []int64 }
@@ -64,20 +108,56 @@ type c15env struct {
 	// read-fault oracle: armed only for the duration of one faulted read
 	repl   int
 	fmu    sync.Mutex
-	faults map[int]int // tract index -> kind (1 all replicas fail, 2 all but replica 0 fail, 3 all fail during the first attempt)
+	faults map[int]int // tract index -> kind (1 all replicas fail, 2 all but replica 0 fail, 3 all fail during the first attempt, 10+r only replica r answers)
 	calls  map[int]int // read RPCs seen per tract since arming
+	// write-fault oracle: (tract, replica slot) -> kind (1 for the whole call, 3 first write RPC to that slot only)
+	wfaults map[[2]int]int
+	wcalls  map[[2]int]int
+
+	cur   *c15curators
+	tss   *c15tss
+	memTS *memTractserverTalker
+	memCu *memCuratorTalker
+	inRS  bool
+}
+
+type c15wfault struct{ tract, replica, kind int }
+
+func c15replicaOf(addr string) int {
+	i := strings.LastIndexByte(addr, '-')
+	if i < 0 {
+		return -1
+	}
+	v := 0
+	for _, c := range addr[i+1:] {
+		if c < '0' || c > '9' {
+			return -1
+		}
+		v = v*10 + int(c-'0')
+	}
+	return v
 }
 
 type c15fault struct{ tract, kind int }
 
 // tsTrace is the in-memory tractserver talker's trace hook: it can fail a read RPC.
 func (e *c15env) tsTrace(t tsTraceEntry) core.Error {
-	if t.write {
-		return core.NoError
-	}
 	e.fmu.Lock()
 	defer e.fmu.Unlock()
 	idx := int(t.id.Index)
+	if t.write {
+		key := [2]int{idx, c15replicaOf(t.addr)}
+		kind, ok := e.wfaults[key]
+		if !ok {
+			return core.NoError
+		}
+		c := e.wcalls[key]
+		e.wcalls[key] = c + 1
+		if kind == 1 || (kind == 3 && c == 0) {
+			return core.ErrRPC
+		}
+		return core.NoError
+	}
 	kind, ok := e.faults[idx]
 	if !ok {
 		return core.NoError
@@ -95,8 +175,81 @@ func (e *c15env) tsTrace(t tsTraceEntry) core.Error {
 		if c < e.repl {
 			return core.ErrRPC
 		}
+	default:
+		if kind >= 10 && c15replicaOf(t.addr) != kind-10 {
+			return core.ErrRPC
+		}
 	}
 	return core.NoError
+}
+
+func (e *c15env) armW(fs []c15wfault) {
+	e.fmu.Lock()
+	e.wfaults = map[[2]int]int{}
+	e.wcalls = map[[2]int]int{}
+	for _, f := range fs {
+		e.wfaults[[2]int{f.tract, f.replica}] = f.kind
+	}
+	e.fmu.Unlock()
+}
+
+func (e *c15env) disarmW() {
+	e.fmu.Lock()
+	e.wfaults = nil
+	e.fmu.Unlock()
+}
+
+func c15wfaultsWire(fs []c15wfault) []int64 {
+	out := []int64{int64(len(fs))}
+	for _, f := range fs {
+		out = append(out, int64(f.tract), int64(f.kind*100+f.replica))
+	}
+	return out
+}
+
+// ---- direct access to the in-memory doubles (monitor only; never through the client) ----
+
+func (e *c15env) curatorTracts() []core.TractInfo {
+	e.memCu.lock.Lock()
+	defer e.memCu.lock.Unlock()
+	id := e.blob.id
+	for _, tc := range e.memCu.curators {
+		if tc.partition == id.Partition() {
+			if bi, ok := tc.blobs[id.ID()]; ok {
+				return append([]core.TractInfo(nil), bi.tracts...)
+			}
+		}
+	}
+	return nil
+}
+
+func (e *c15env) replicaData(ti core.TractInfo, r int) []byte {
+	e.memTS.lock.Lock()
+	defer e.memTS.lock.Unlock()
+	ts, ok := e.memTS.tractservers[ti.Hosts[r]]
+	if !ok {
+		return nil
+	}
+	return append([]byte(nil), ts.data[ti.Tract]...)
+}
+
+// gcUnacked emulates the tractservers' garbage collection of tracts the curator never acknowledged
+// (left behind by a failed create): without it the in-memory doubles refuse every later Create of those tracts.
+func (e *c15env) gcUnacked() int {
+	nt := len(e.curatorTracts())
+	e.memTS.lock.Lock()
+	defer e.memTS.lock.Unlock()
+	removed := 0
+	for _, ts := range e.memTS.tractservers {
+		for id := range ts.versions {
+			if id.Blob == e.blob.id && int(id.Index) >= nt {
+				delete(ts.versions, id)
+				delete(ts.data, id)
+				removed++
+			}
+		}
+	}
+	return removed
 }
 
 func (e *c15env) arm(fs []c15fault) {
@@ -128,8 +281,12 @@ func c15newEnv(id string, cacheOn bool, repl int) *c15env {
 	options := Options{DisableRetry: true, DisableCache: !cacheOn}
 	cli := newBaseClient(&options)
 	cli.master = newMemMasterConnection([]string{"1", "2", "3"})
-	cli.curators = &c15curators{CuratorTalker: newMemCuratorTalker(), n: &e.rpcs}
-	cli.tractservers = newMemTractserverTalker(e.tsTrace)
+	e.memCu = newMemCuratorTalker().(*memCuratorTalker)
+	e.memTS = newMemTractserverTalker(e.tsTrace).(*memTractserverTalker)
+	e.cur = &c15curators{CuratorTalker: e.memCu, n: &e.rpcs}
+	e.tss = &c15tss{TractserverTalker: e.memTS}
+	cli.curators = e.cur
+	cli.tractservers = e.tss
 	e.cli = cli
 	b, err := cli.Create(ReplFactor(repl))
 	if err != nil {
@@ -440,6 +597,357 @@ func (e *c15env) readAt(off, k int64) {
 		return
 	}
 	e.checkRead("readat", off, p, n, err)
+}
+
+// tractAt returns byte i of the zero-extended slice
+func c15at(b []byte, i int64) byte {
+	if i < int64(len(b)) {
+		return b[i]
+	}
+	return 0
+}
+
+// writeAtF: WriteAt while per-replica tractserver write faults are armed. Rule (model-free):
+// a write that returns success is readable from EVERY replica; a failed write leaves every replica's bytes, inside the
+// written range, old or new (the claimed prefix new), outside it untouched, and the length between the old one and
+// max(old, off+len). Afterwards the same write is re-issued without faults so that all replicas agree again.
+func (e *c15env) writeAtF(off int64, rs []c15run, fs []c15wfault) {
+	data := c15build(rs)
+	k := int64(len(data))
+	oldL := int64(len(e.oracle))
+	lo, hi := off/c15TL, (off+k-1)/c15TL
+	var oldImg []byte // old content of tracts lo..hi
+	if lo*c15TL < oldL {
+		end := (hi + 1) * c15TL
+		if end > oldL {
+			end = oldL
+		}
+		oldImg = append([]byte(nil), e.oracle[lo*c15TL:end]...)
+	}
+	e.armW(fs)
+	n, err := e.blob.WriteAt(data, off)
+	e.disarmW()
+	op := append([]int64{15, int64(e.repl), off}, c15runsWire(rs)...)
+	op = append(op, c15wfaultsWire(fs)...)
+	e.emit(op, e.hdr(int64(n), err))
+	e.nwrites++
+	vw.Stat(fmt.Sprintf("faulted.write.err=%d", c15errClass(err)), 1)
+	det := map[string]interface{}{"off": off, "len": k, "n": n, "err": fmt.Sprint(err), "faults": fmt.Sprint(fs), "repl": e.repl, "blob_len_before": oldL}
+	hit := false
+	for _, f := range fs {
+		if int64(f.tract) >= lo && int64(f.tract) <= hi && f.replica < e.repl {
+			hit = true
+		}
+	}
+	if err == nil {
+		if int64(n) != k {
+			e.report("writeat-result", "a WriteAt returned success with a short count", det)
+			return
+		}
+		e.oracleWrite(off, data)
+		e.raKnown = false
+		// the acknowledged bytes must be readable from EVERY replica: read back through each one in turn
+		for r := 0; r < e.repl; r++ {
+			var rf []c15fault
+			for t := lo; t <= hi; t++ {
+				rf = append(rf, c15fault{int(t), 10 + r})
+			}
+			e.readAtKind("readback", off, k, rf)
+		}
+		return
+	}
+	if !core.ErrRPC.Is(err) {
+		e.report("writeat-unexpected-error", "a WriteAt under tractserver write faults failed with an error that was not injected", det)
+	}
+	if !hit {
+		e.report("writeat-spurious-error", "a WriteAt failed although no replica of any tract it writes was failing", det)
+	}
+	if n < 0 || int64(n) > k {
+		e.report("writeat-result", "a failed WriteAt claims an impossible count", det)
+		n = 0
+	}
+	// what every replica holds now
+	newImg := make([]byte, (hi+1-lo)*c15TL)
+	copy(newImg, oldImg)
+	copy(newImg[off-lo*c15TL:], data)
+	tracts := e.curatorTracts()
+	for t := lo; t <= hi && t < int64(len(tracts)); t++ {
+		base := (t - lo) * c15TL
+		for r := 0; r < e.repl; r++ {
+			d := e.replicaData(tracts[t], r)
+			if int64(len(d)) > c15TL {
+				e.report("writeat-failed-tract-too-long", "a tract grew beyond the tract length", det)
+				continue
+			}
+			// fast paths: the replica holds exactly the old or exactly the new image of the tract
+			oldT, newT := []byte(nil), newImg[base:base+c15TL]
+			if base < int64(len(oldImg)) {
+				oe := base + c15TL
+				if oe > int64(len(oldImg)) {
+					oe = int64(len(oldImg))
+				}
+				oldT = oldImg[base:oe]
+			}
+			bad := int64(-1)
+			for i := int64(0); i < c15TL; i++ {
+				g := t*c15TL + i
+				v := c15at(d, i)
+				inRange := g >= off && g < off+k
+				claimed := g >= off && g < off+int64(n)
+				switch {
+				case claimed && v != newT[i]:
+					bad = g
+				case inRange && v != newT[i] && v != c15at(oldT, i):
+					bad = g
+				case !inRange && v != c15at(oldT, i):
+					bad = g
+				}
+				if bad >= 0 {
+					break
+				}
+			}
+			if bad >= 0 {
+				det["tract"], det["replica"], det["offset"] = t, r, bad
+				e.report("writeat-failed-left-foreign-bytes", "after a failed write a replica holds bytes that are neither the old nor the new ones (or the claimed prefix is not there, or bytes outside the range changed)", det)
+			}
+		}
+	}
+	// length as any replica would report it
+	if nt := int64(len(tracts)); nt > 0 {
+		maxL := oldL
+		if off+k > maxL {
+			maxL = off + k
+		}
+		for r := 0; r < e.repl; r++ {
+			lr := (nt-1)*c15TL + int64(len(e.replicaData(tracts[nt-1], r)))
+			if lr < oldL || lr > maxL {
+				det["length_now"], det["replica"] = lr, r
+				e.report("writeat-failed-length-out-of-range", "after a failed write the blob's length is not between the old length and the end of the write", det)
+			}
+		}
+	}
+	e.gcUnacked()
+	// bring all replicas back into agreement: the same write, without faults
+	e.writeAt(off, rs)
+}
+
+// readAtKind: like readAtF with a monitor-signature prefix of its own
+func (e *c15env) readAtKind(kind string, off, k int64, fs []c15fault) {
+	p := make([]byte, k)
+	c15fill(p, c15Dirty)
+	e.arm(fs)
+	n, err := e.blob.ReadAt(p, off)
+	e.disarm()
+	if n < 0 || int64(n) > k {
+		n = 0
+	}
+	op := append([]int64{13, off, k}, c15faultsWire(fs)...)
+	e.emit(op, append(e.hdr(int64(n), err), c15rle(p[:n])...))
+	e.checkReadF(kind, off, p, n, err, fs)
+}
+
+func (e *c15env) genWFaults(r *vw.Rng, off, k int64) []c15wfault {
+	lo, hi := off/c15TL, (off+k-1)/c15TL
+	nf := r.PickInt(1, 1, 1, 2)
+	var fs []c15wfault
+	for i := 0; i < nf; i++ {
+		t := lo + int64(r.Intn(int(hi-lo+1)))
+		if r.Chance(1, 10) {
+			t = hi + 1 // not written: no effect
+		}
+		rep := r.Intn(e.repl)
+		if r.Chance(1, 12) {
+			rep = e.repl // no such replica: no effect
+		}
+		dup := false
+		for _, f := range fs {
+			if f.tract == int(t) && f.replica == rep {
+				dup = true
+			}
+		}
+		kind := r.PickInt(1, 1, 1, 3)
+		if !dup {
+			fs = append(fs, c15wfault{int(t), rep, kind})
+		}
+	}
+	return fs
+}
+
+// a write of one of the shapes: overwrite inside existing tracts, extension of the last tract, new tracts,
+// existing + new tracts, a hole of whole tracts before the data
+func (e *c15env) genWriteShape(r *vw.Rng) (int64, int64) {
+	L := int64(len(e.oracle))
+	TL := c15TL
+	var off, k int64
+	switch r.Intn(7) {
+	case 0: // inside one existing tract
+		off = int64(r.Intn(int(L/2 + 1)))
+		k = r.PickI64(1, 10, 5000, TL/2)
+	case 1: // across a boundary of existing tracts
+		off = TL - r.PickI64(1, 10, 3000)
+		k = r.PickI64(20, 6000, TL+5)
+	case 2: // extends the last tract / appends
+		off = L - r.PickI64(0, 0, 5, 100)
+		k = r.PickI64(10, 5000, TL, TL+7)
+	case 3: // existing + new tracts
+		off = L - L%TL - r.PickI64(0, 10)
+		k = r.PickI64(TL+10, 2*TL+1)
+	case 4: // hole of one or two whole tracts, then data
+		off = (L/TL+1)*TL + r.PickI64(TL, 2*TL) + r.PickI64(0, 5)
+		k = r.PickI64(10, TL+1)
+	case 5: // whole tracts
+		off = int64(r.Intn(3)) * TL
+		k = r.PickI64(TL, 2*TL)
+	default:
+		off = e.genOffset(r, true)
+		k = e.genLen(r, off, true)
+	}
+	if off < 0 {
+		off = 0
+	}
+	if off > c15MaxSize-TL {
+		off = c15MaxSize - TL - 7
+	}
+	if off+k > c15MaxSize {
+		k = c15MaxSize - off
+	}
+	if k < 1 {
+		k = 1
+	}
+	return off, k
+}
+
+func (e *c15env) stepWriteFaults(r *vw.Rng) {
+	switch x := r.Intn(100); {
+	case x < 55:
+		off, k := e.genWriteShape(r)
+		if r.Chance(1, 3) {
+			lo := off / c15TL
+			e.readAt(lo*c15TL, 10) // fills the tract cache (when on) for the first written tract
+		}
+		e.writeAtF(off, e.genData(r, off, k), e.genWFaults(r, off, k))
+	case x < 65:
+		off, k := e.genWriteShape(r)
+		e.writeAt(off, e.genData(r, off, k))
+	case x < 80:
+		off := e.genOffset(r, false)
+		e.readAt(off, e.genLen(r, off, false))
+	case x < 88:
+		e.byteLength(false)
+	case x < 95:
+		e.setCache(r.Bool())
+	default:
+		e.stepDirect(r)
+	}
+}
+
+// ---- RS-backed mode: the same reads must give the same (n, err, bytes) after the tracts moved to RS storage ----
+
+type c15probeRead struct {
+	at   bool // ReadAt (else Seek SET + Read)
+	off  int64
+	k    int64
+	n    int
+	err  int64
+	data []int64
+}
+
+func (e *c15env) rsBattery(r *vw.Rng) []c15probeRead {
+	L := int64(len(e.oracle))
+	var ps []c15probeRead
+	add := func(at bool, off, k int64) {
+		if off < 0 {
+			off = 0
+		}
+		if k < 0 {
+			k = 0
+		}
+		if k > 4*c15TL {
+			k = 4 * c15TL
+		}
+		ps = append(ps, c15probeRead{at: at, off: off, k: k})
+	}
+	add(true, 0, L+777)       // the whole blob and beyond
+	add(true, 0, L)           // exactly
+	add(true, c15TL-10, c15TL+50)
+	// ranges that end inside / just past every tract's stored data (short non-final tracts, holes)
+	for _, ti := range e.curatorTracts() {
+		t := int64(ti.Tract.Index)
+		d := int64(len(e.replicaData(ti, 0)))
+		if r.Chance(1, 2) {
+			add(true, t*c15TL+d-r.PickI64(0, 1, 10), r.PickI64(5, 20, c15TL))
+		}
+		if r.Chance(1, 3) {
+			add(false, t*c15TL+r.PickI64(0, d/2), d+r.PickI64(0, 1, 100))
+		}
+	}
+	for i := 0; i < 4; i++ {
+		off := e.genOffset(r, false)
+		add(r.Chance(2, 3), off, e.genLen(r, off, false))
+	}
+	return ps
+}
+
+func (e *c15env) runBattery(ps []c15probeRead, first bool) {
+	for i := range ps {
+		p := &ps[i]
+		if p.at {
+			e.readAt(p.off, p.k)
+		} else {
+			e.seek(p.off, c15SeekSet)
+			e.read(p.k)
+		}
+		obs := e.lines[len(e.lines)-1].obs
+		n, ec, data := int(obs[0]), obs[1], obs[4:]
+		if first {
+			p.n, p.err, p.data = n, ec, data
+			continue
+		}
+		same := n == p.n && ec == p.err && len(data) == len(p.data)
+		for j := 0; same && j < len(data); j++ {
+			same = data[j] == p.data[j]
+		}
+		if !same {
+			e.report("rs-read-differs-from-replicated", "a read of the same blob gives a different (count, error, bytes) after its tracts moved to RS storage",
+				map[string]interface{}{"readat": p.at, "off": p.off, "len": p.k, "replicated": fmt.Sprint(p.n, p.err, p.data), "rs": fmt.Sprint(n, ec, data), "blob_len": len(e.oracle)})
+		}
+	}
+	e.byteLength(false)
+}
+
+// rsPhase: run a battery of reads, move the tracts into one packed RS piece (as the curator and tractservers do
+// after encoding: GetTracts answers RS pointers without hosts, the bytes live back to back in one piece), drop the
+// client's cached locations, and run the same battery again.
+func (e *c15env) rsPhase(r *vw.Rng) {
+	tracts := e.curatorTracts()
+	if len(tracts) == 0 {
+		return
+	}
+	ps := e.rsBattery(r)
+	e.runBattery(ps, true)
+	ptrs := make(map[core.TractKey]core.TractPointer)
+	chunk := core.RSChunkID{Partition: core.PartitionID(0x80000001), ID: 1 << 16}
+	var piece []byte
+	if r.Chance(1, 2) {
+		piece = append(piece, bytes.Repeat([]byte{0x77}, r.PickInt(1, 512, 4096))...) // another blob's tract packed first
+	}
+	for _, ti := range tracts {
+		d := e.replicaData(ti, 0)
+		ptrs[ti.Tract.Index] = core.TractPointer{Chunk: chunk, Host: c15RSHost, TSID: 777, Offset: uint32(len(piece)), Length: uint32(len(d))}
+		piece = append(piece, d...)
+	}
+	piece = append(piece, bytes.Repeat([]byte{0x55}, 4096)...) // padding / next tract in the piece
+	e.tss.mu.Lock()
+	e.tss.piece = piece
+	e.tss.mu.Unlock()
+	e.cur.mu.Lock()
+	e.cur.ptrs = ptrs
+	e.cur.mu.Unlock()
+	e.inRS = true
+	e.cli.tractCache.invalidate(e.blob.id)
+	e.emit([]int64{16}, []int64{0})
+	vw.Stat("rs.phase", 1)
+	e.runBattery(ps, false)
 }
 
 func (e *c15env) readAtF(off, k int64, fs []c15fault) {
@@ -1085,7 +1593,11 @@ func (e *c15env) buildLayout(r *vw.Rng) {
 
 func c15runCase(id string, r *vw.Rng, fix16, fix17, fix17b bool, nops int) *c15env {
 	cacheOn := r.Bool()
+	kind := r.Intn(112)
 	repl := r.PickInt(1, 1, 1, 2, 3)
+	if kind >= 100 {
+		repl = r.PickInt(1, 2, 3, 3, 3)
+	}
 	e := c15newEnv(id, cacheOn, repl)
 	b2i := func(b bool) int64 {
 		if b {
@@ -1094,8 +1606,13 @@ func c15runCase(id string, r *vw.Rng, fix16, fix17, fix17b bool, nops int) *c15e
 		return 0
 	}
 	e.emit([]int64{0, b2i(fix16), b2i(fix17), b2i(cacheOn), b2i(fix17b)}, []int64{0})
-	kind := r.Intn(100)
 	switch {
+	case kind >= 100: // per-replica tractserver write faults
+		vw.Stat("case.kind=write-faults", 1)
+		e.writeAt(0, []c15run{{c15TL - 3, 31}, {r.PickI64(5000, c15TL+3, c15TL+5003), 32}})
+		for i := 0; i < nops; i++ {
+			e.stepWriteFaults(r)
+		}
 	case kind < 14: // multi-tract blob, reads with tractserver read faults armed
 		vw.Stat("case.kind=layout+faulted-reads", 1)
 		e.writeAt(0, []c15run{{c15TL - 3, 21}, {c15TL + 3, 22}, {r.PickI64(c15TL, c15TL-5, 100, 2*c15TL), 23}})
@@ -1146,6 +1663,9 @@ func c15runCase(id string, r *vw.Rng, fix16, fix17, fix17b bool, nops int) *c15e
 		}
 	}
 	e.byteLength(false)
+	if r.Chance(3, 5) {
+		e.rsPhase(r)
+	}
 	return e
 }
 
